@@ -17,7 +17,8 @@ RULE = ("case = (solver x noise cell, dt, grid length, cut set); every single cu
         ">= 4 steps; distinct = distinct (cell, cut set) keys")
 ASSUMPTIONS = ["restart points are the grid times the one-shot run actually visited (read from the step log)",
                "the chunked run uses ONE Brownian object for all chunks; the one-shot run an equal-entropy twin"]
-REQUIRED_COUNTERS = ["chunked_runs", "extra_state_threaded", "cuts", "clipped_last_step", "far_from_zero_time_axis"]
+REQUIRED_COUNTERS = ["chunked_runs", "extra_state_threaded", "cuts", "clipped_last_step", "far_from_zero_time_axis",
+                     "float32_brownian_float64_state"]
 
 
 def cases(tier, seed):
@@ -55,9 +56,15 @@ def run_case(case):
     y0 = torch.randn(B, d, generator=torch.Generator().manual_seed(case["rseed"]))
     levy = zoo.levy_for(cell["method"])
 
+    # mixed precision that the library accepts (element-wise diffusion: float64 state and parameters driven by a float32
+    # Brownian motion; the products promote to float64): the carried state must not lose precision at a restart
+    bm_f32 = cell["noise_type"] == "diagonal" and rng.random() < 0.35
+    cnt["float32_brownian_float64_state"] = int(bm_f32)
+
     def new_bm():
         return torchsde.BrownianInterval(t0=float(ts[0]), t1=float(ts[-1]), size=(B, sde.m), entropy=entropy,
-                                         levy_area_approximation=levy, cache_size=rng.choice([1, 45, None]))
+                                         levy_area_approximation=levy, cache_size=rng.choice([1, 45, None]),
+                                         dtype=torch.float32 if bm_f32 else torch.float64)
 
     pr = probes.SolverProbe()
     with pr.installed():
@@ -86,7 +93,7 @@ def run_case(case):
         cutsets.append(tuple(interior))
     else:
         cutsets = [c for r in range(1, len(interior) + 1) for c in itertools.combinations(interior, r)]
-    ctx0 = f"cell={zoo.cell_name(cell)} dt={dt} t0={t0} T={T} steps={nsteps}"
+    ctx0 = f"cell={zoo.cell_name(cell)} dt={dt} t0={t0} T={T} steps={nsteps} float32_bm={bm_f32}"
     for cuts in cutsets:
         bm = new_bm()
         bounds = [0] + list(cuts) + [nsteps]
